@@ -87,39 +87,62 @@ def gen_store_program(rng, profile):
 
 def gen_faulty_program(rng):
     """Write failures of the log underneath (disk full, I/O error) during store operations, then the restart such an
-    error forces (a storage error is fatal to the Raft instance).  Run on the implementation only: the oracle is the
-    acknowledged state; the Lean model has no write failures."""
+    error forces (a storage error is fatal to the Raft instance).  Model: LogStore.stepFault."""
     lines = ["open"]
     nxt, term = 1, 1
-    faults = 0
-    for _ in range(rng.randint(2, 8)):
+    pending = None          # countdown of Raft-log record writes until the armed failure
+    ppending = None         # the same for the peer log
+    known_peers = {}
+    fired = False
+    for _ in range(rng.randint(2, 9)):
+        if pending is None and ppending is None and rng.random() < 0.4:
+            if rng.random() < 0.85:
+                pending = rng.randint(0, 6)
+                lines.append("fault %d" % pending)
+            else:
+                ppending = rng.randint(0, 1)
+                lines.append("fault peer %d" % ppending)
         r = rng.random()
-        inject = rng.random() < 0.45
-        if r < 0.6:
+        recs = 1
+        if r < 0.55:
             k = rng.randint(1, 5)
             ents = []
             for _ in range(k):
                 ents.append("%d:%d:%d" % (nxt, term, rng.choice([0, 1, 7, 64, 300])))
                 nxt += 1
-            if inject:
-                lines.append("fault %d" % rng.randint(0, k - 1))
+            recs = k
             lines.append("append " + " ".join(ents))
-        elif r < 0.75:
+        elif r < 0.68:
             term += 1
-            if inject:
-                lines.append("fault 0")
             lines.append("vote %d:%d:%d" % (term, rng.randint(1, 3), rng.randint(0, 1)))
-        elif r < 0.9:
-            if inject:
-                lines.append("fault 0")
+        elif r < 0.80:
             lines.append("committed %d:%d" % (rng.randint(0, nxt), term))
+        elif r < 0.88 and nxt > 1:
+            at = rng.randint(1, nxt - 1)
+            term += 1
+            lines.append("truncate %d:%d" % (at, term))
+            nxt = at
         else:
-            if inject:
-                lines.append("fault peer 0")
-            lines.append("peer %d %d" % (rng.randint(1, 4), rng.choice([5001, 5002, 6001])))
-        if inject:
-            faults += 1
-            break          # the failed operation is the last of this process
+            recs = 0
+            pid, port = rng.randint(1, 4), rng.choice([5001, 5002, 6001])
+            lines.append("peer %d %d" % (pid, port))
+            if known_peers.get(pid) != port:
+                if ppending is not None:
+                    if ppending == 0:
+                        fired = True
+                    else:
+                        ppending -= 1
+                if not fired:
+                    known_peers[pid] = port
+        if pending is not None and recs > 0:
+            if pending < recs:
+                fired = True
+            else:
+                pending -= recs
+        if fired:
+            if rng.random() < 0.4:
+                lines.append("state")      # the memory of the failed process: not judged by the oracle, compared with the model
+            break
     lines += [rng.choice(["kill", "restart"]), "open", "state"]
     return lines
 
@@ -221,6 +244,7 @@ class AckOracle:
         self.purged = None
         self.peers = {}
         self.open = False
+        self.failed = False       # an operation of this process returned the injected write error
         self.armed = False        # an injected write failure is pending
         self.maybe = []           # acceptable reports after a failed operation (its records up to the failing one may be in the log)
 
@@ -239,6 +263,8 @@ class AckOracle:
         t = line.split()
         if t[0] in ("restart", "kill", "close"):
             self.open = False
+            self.failed = False
+            self.armed = False
             return None
         if t[0] == "open":
             self.open = out == "ok"
@@ -251,12 +277,15 @@ class AckOracle:
             return None
         if t[0] == "state":
             exp = self.fmt()
+            if self.failed:
+                return None        # the memory of a process whose store returned a write error (openraft has shut it down)
             if out in self.maybe:
                 return None
             return None if out == exp else "reopened/open store reports\n    %s\n  acknowledged state is\n    %s" % (out, exp)
         if not acked and self.armed:
             # the injected failure: nothing acknowledged; the records written before the failing one may be found later
             self.armed = False
+            self.failed = True
             if t[0] == "append":
                 extra = {}
                 for e in t[1:]:
@@ -362,8 +391,8 @@ def check_c21(ctx):
             programs.append(("wrapper", gen_wrapper_program(rng)))
         for _ in range(300 if thorough else 50):
             programs.append(("faulty", gen_faulty_program(rng)))
-        nomodel = {i for i, (prof, _) in enumerate(programs) if prof == "faulty"}
-        model = run_model(ctx.scratch, [p if prof != "faulty" else [] for prof, p in programs])
+        nomodel = set()
+        model = run_model(ctx.scratch, [p for prof, p in programs])
         if model is None:
             ctx.tie_broken.append("wdriver could not be run on the log-store programs")
         # implementations, in parallel
@@ -391,6 +420,7 @@ def check_c21(ctx):
             hist["states_checked"] += lines.count("state")
             hist["purge_refused"] += outs.count("panic")
             hist["closed_ops"] += outs.count("err:closed")
+            hist["injected_write_errors"] = hist.get("injected_write_errors", 0) + outs.count("err")
             for l in lines:
                 ophist[l.split()[0]] = ophist.get(l.split()[0], 0) + 1
             key = "\n".join(lines)
@@ -449,7 +479,7 @@ def check_c21(ctx):
                     "Lean model (LogStore.step), outputs compared line by line; oracle = independently tracked acknowledged state compared with every `state` "
                     "report. profiles: single (at most one reopen after data, plus reopens of an empty store), huge (the same with 3-6 MB entries: several engine blocks and read batches), multi (2-5 reopens, clean and killed), kill "
                     "(killed processes only), wrapper (bare WriteAheadLog append/read_all/reopen), faulty (a record write of the log underneath fails inside an append / vote / committed / peer "
-                    "operation, the process is restarted: implementation against the acknowledged-state oracle only, no model comparison). non-trivial = distinct program with at least one reopen",
+                    "operation, the process is restarted: compared with LogStore.stepFault line by line, and judged by the acknowledged-state oracle). non-trivial = distinct program with at least one reopen",
             "programs": len(programs),
             "histogram": hist,
             "operations": ophist,
